@@ -17,7 +17,7 @@ var pureCallee = regexp.MustCompile(`^(fmt\.|errors\.|strings\.|strconv\.|\*?typ
 
 func (fr *frame) calleeKey(c *ssa.CallCommon) (string, *ssa.Function) {
 	if c.IsInvoke() {
-		rt := c.Value.Type()
+		rt := types.Unalias(c.Value.Type())
 		if n, ok := rt.(*types.Named); ok {
 			p := ""
 			if n.Obj().Pkg() != nil {
@@ -45,6 +45,22 @@ func (fr *frame) doCall(c *ssa.CallCommon, args []SV, cur *State, instr *ssa.Cal
 		return fr.builtin(b, c, args, cur, rtyp)
 	}
 	key, callee := fr.calleeKey(c)
+	// devirtualise: the receiver was boxed from a known concrete type in this very function
+	if c.IsInvoke() && len(args) > 0 && args[0].dyn != nil && args[0].dyn.typ != nil {
+		if m := vc.eng.prog.LookupMethod(args[0].dyn.typ, c.Method.Pkg(), c.Method.Name()); m != nil && m.Synthetic == "" {
+			callee = m
+			key = funcKey(m)
+			args = append([]SV{*args[0].dyn}, args[1:]...)
+			if con := vc.eng.contracts[key]; con != nil {
+				return fr.applyContract(con, key, args, cur, rtyp)
+			}
+			inRepo := m.Pkg != nil && strings.HasPrefix(m.Pkg.Pkg.Path(), repoMod)
+			if inRepo && len(m.Blocks) > 0 && !hasLoops(m) && fr.depth < maxInlineDepth && !vc.onStack(m) {
+				return fr.inline(m, args, nil, cur, rtyp)
+			}
+			return fr.opaque(key, c, args, cur, rtyp, false)
+		}
+	}
 	// closures / function values
 	if callee == nil && !c.IsInvoke() {
 		fv := fr.val(c.Value)
@@ -476,7 +492,8 @@ func (fr *frame) appendOp(args []SV, cur *State, rtyp types.Type) SV {
 	newRef := cur.alloc
 	cur.alloc = vc.bump(cur.alloc)
 	newCap := vc.fresh("appcap", "Int")
-	vc.assume(and(le(n, newCap), le(newCap, "4611686018427387904")))
+	vc.assume(and(le(n, newCap), le(newCap, "281474976710656")))
+	fr.safe("appendlen", le(n, "281474976710656"))
 	// in-place row and fresh row
 	var inplace, freshRow T
 	if k, isNum := isNumeral(tl); isNum && k.IsInt64() && k.Int64() <= 8 {
